@@ -850,7 +850,7 @@ def corr_compose(ck, rxns):
         ck.case(('mc',) + tok, nontrivial=h is not None and bool(h.center_atoms))
         ck.count('compose:' + tok[0] + ':' + ('ValueError' if h is None else 'centre' if h.center_atoms else 'no centre'))
     # (3) reaction level: unions (with renumbering on collisions) + compose
-    for x in (rxns[:200] if ck.tier == 'quick' else rxns):
+    for x in (rxns[:200] if ck.tier == 'quick' else rxns[:1000]):
         rxn = x.rxn
         try:
             rr = list(rxn.reagents) + list(rxn.reactants)
@@ -1258,7 +1258,7 @@ def run(ck):
         return orig(key, *a, **k)
     ck.counterexample = limited
     proved = common.standard_proof_steps(ck, translators=[])
-    n = 300 if ck.tier == 'quick' else 3000
+    n = 300 if ck.tier == 'quick' else 1500
     rxns = gen_reactions(ck, n)
     ck.extra['reactions'] = len(rxns)
     tied = corr_compose(ck, rxns)
